@@ -241,8 +241,8 @@ AUDITED = {
     "unwrap(Option):[T]::last(HIST)": "the history vector starts with one entry and `previous` never pops the last one (C11.SNAPSHOT pop_guard)",
     "unwrap(Result):Write::flush(CustomWriter::new(CLOSURE))": "flush of a capturing writer: fails only if the terminal write fails (outside the property) or the program wrote invalid UTF-8 bytes (writers only receive formatted chars)",
     "terminate:exit(K0)": "`exit` command / end of the command script: status 0",
-    "index:Vec<str>[usize]:Iterator::collect(str::split(str::trim(TRY(io::read_line_from(stdio...[K0]": "str::split always yields at least one piece",
-    "index:Vec<str>[usize]:Iterator::collect(str::split(str::trim(TRY(io::read_line_from(stdio...[K1]": "guarded by parsed.len() < 2 -> continue",
+    "index:Vec<str>[usize]:Iterator::collect(str::split(str::trim(TRY(io::read_line_from(stdio...#78b157[K0]": "str::split always yields at least one piece",
+    "index:Vec<str>[usize]:Iterator::collect(str::split(str::trim(TRY(io::read_line_from(stdio...#78b157[K1]": "guarded by parsed.len() < 2 -> continue",
     "index:Vec<core::code::UnOptCode>[usize]:PROGRAM[UNWRAP([T]::last(HIST)).1]": "the main loop runs only while the newest position is below the program length",
     "index:Vec<core::code::UnOptCode>[usize]:UPVAR:un_opt_code[P2]": "every breakpoint in the set is below the program length (C11.BP) — with an empty program the loop never runs and nothing is listed",
 }
